@@ -7,6 +7,7 @@ import (
 	"fmt"
 	"sort"
 	"strings"
+	"sync"
 	"testing"
 	"testing/synctest"
 	"time"
@@ -17,6 +18,7 @@ import (
 	"github.com/failsafe-go/failsafe-go/circuitbreaker"
 	"github.com/failsafe-go/failsafe-go/common"
 	"github.com/failsafe-go/failsafe-go/fallback"
+	"github.com/failsafe-go/failsafe-go/hedgepolicy"
 	"github.com/failsafe-go/failsafe-go/ratelimiter"
 	"github.com/failsafe-go/failsafe-go/retrypolicy"
 	"github.com/failsafe-go/failsafe-go/timeout"
@@ -75,7 +77,7 @@ func buildInstances(d InstD) *liveInst {
 		rec := func(tag int) func(circuitbreaker.StateChangedEvent) {
 			return func(e circuitbreaker.StateChangedEvent) {
 				if li.log != nil {
-					li.log.add("Breaker", *li.bpos[i], 0, 0, 0, "(0, None)", int64(int(e.OldState)*16+int(e.NewState)*4+tag))
+					li.log.add("Breaker", *li.bpos[i], 0, 0, 0, 0, "(0, None)", int64(int(e.OldState)*16+int(e.NewState)*4+tag))
 				}
 			}
 		}
@@ -192,8 +194,13 @@ func buildPolicies(st []PolD, li *liveInst) []failsafe.Policy[int] {
 			ps = append(ps, &posPolicy{inner: li.bulkheads[p.Inst], pos: pos, cur: li.kpos[p.Inst]})
 		case "Timeout":
 			ps = append(ps, timeout.Builder[int](time.Duration(p.Limit)).OnTimeoutExceeded(func(e failsafe.ExecutionDoneEvent[int]) {
-				log().add("TimeoutExceeded", pos, e.Attempts(), e.Retries(), e.Executions(), gOutcome(e.Result, e.Error), 0)
+				log().add("TimeoutExceeded", pos, e.Attempts(), e.Retries(), e.Hedges(), e.Executions(), gOutcome(e.Result, e.Error), 0)
 			}).Build())
+		case "Hedge":
+			b := hedgepolicy.BuilderWithDelay[int](time.Duration(p.HDelay)).WithMaxHedges(p.Hedges)
+			b = applyCancelHedge(b, p.Cancel)
+			b = b.OnHedge(func(e failsafe.ExecutionEvent[int]) { log().attempt("Hedge", pos, e.ExecutionAttempt, 0) })
+			ps = append(ps, b.Build())
 		case "Fallback":
 			var b fallback.FallbackBuilder[int]
 			switch p.FBKind {
@@ -310,16 +317,26 @@ func runHistory(t *testing.T, inst InstD, reqs []ReqD) (obs []ExecObs, start int
 			script := rq.Script
 			idx, invoked := 0, 0
 			total := len(rq.Stack)
+			var fnMu sync.Mutex
+			var fnWG sync.WaitGroup
 			body := func(exec failsafe.Execution[int]) (int, error) {
+				fnWG.Add(1)
+				defer fnWG.Done()
+				fnMu.Lock()
 				st := script[idx]
 				if idx < len(script)-1 {
 					idx++
 				}
 				invoked++
+				fnMu.Unlock()
 				if exec != nil {
-					log.attempt("FnStart", total, exec, 0)
+					aux := int64(0)
+					if exec.IsHedge() {
+						aux = 1
+					}
+					log.attempt("FnStart", total, exec, aux)
 				} else {
-					log.add("FnStart", total, 0, 0, 0, "(0, None)", 0)
+					log.add("FnStart", total, 0, 0, 0, 0, "(0, None)", 0)
 				}
 				out := st.Out
 				if st.Coop != nil && exec != nil {
@@ -329,15 +346,16 @@ func runHistory(t *testing.T, inst InstD, reqs []ReqD) (obs []ExecObs, start int
 					case <-exec.Canceled():
 						tm.Stop()
 						out = *st.Coop
+						time.Sleep(time.Duration(st.Lag))
 					}
 				} else {
 					time.Sleep(time.Duration(st.Dur))
 				}
 				r, e := out.Go()
 				if exec != nil {
-					log.add("FnEnd", total, exec.Attempts(), exec.Retries(), exec.Executions()+1, gOutcome(r, e), 0)
+					log.add("FnEnd", total, exec.Attempts(), exec.Retries(), exec.Hedges(), exec.Executions()+1, gOutcome(r, e), 0)
 				} else {
-					log.add("FnEnd", total, 0, 0, 0, gOutcome(r, e), 0)
+					log.add("FnEnd", total, 0, 0, 0, 0, gOutcome(r, e), 0)
 				}
 				return r, e
 			}
@@ -384,6 +402,9 @@ func runHistory(t *testing.T, inst InstD, reqs []ReqD) (obs []ExecObs, start int
 			}
 			_ = asyncCancel
 			end := log.now()
+			// hedge attempts still running go on to their end before anything else happens
+			synctest.Wait()
+			fnWG.Wait()
 			if timer != nil {
 				timer.Stop()
 			}
